@@ -1351,3 +1351,373 @@ Qed.
 Corollary vmatch_is_limit t a la s n :
   jdepth t < n -> vmatch_f n t a (la_arg la) s = vmatch t a la s.
 Proof. intros H. unfold vmatch. apply vmatch_fuel_irrelevant; lia. Qed.
+
+(* ------------------------------------------------------------------ *)
+(* C04 no_update_loop, composed: the two payload facts                 *)
+(* ------------------------------------------------------------------ *)
+
+Lemma strip_kvs_In k v' kvs :
+  In (k, v') (strip_kvs kvs) -> exists v, In (k, v) kvs /\ v' = strip v.
+Proof.
+  induction kvs as [|[k0 v0] r IH]; cbn; [tauto|].
+  destruct (is_directive k0); cbn.
+  - intros I. destruct (IH I) as [v [A B]]. eauto.
+  - intros [E|I]; [inversion E; subst; eauto|]. destruct (IH I) as [v [A B]]. eauto.
+Qed.
+
+Lemma wf_strip j : wf j = true -> wf (strip j) = true.
+Proof.
+  induction j using json_ind'; intros W; auto.
+  - rewrite strip_list_eq. cbn. apply forallb_forall. intros x I.
+    apply in_map_iff in I. destruct I as [y [E I]]. subst.
+    rewrite Forall_forall in H. apply H; auto. eapply wf_list_inv; eauto.
+  - rewrite strip_map_eq. apply wf_map_inv in W. destruct W as [ND A].
+    apply wf_map_intro; [apply strip_kvs_nodup; auto|].
+    intros k v' I. destruct (strip_kvs_In _ _ _ I) as [v [Iv E]]. subst.
+    rewrite Forall_forall in H. apply (H (k, v) Iv). eauto.
+Qed.
+
+Lemma wf_lookup kvs k v : wf (JMap kvs) = true -> lookup k kvs = Some v -> wf v = true.
+Proof. intros W L. apply wf_map_inv in W. destruct W as [_ A]. eapply A. apply v_lookup_In. eauto. Qed.
+
+Lemma wf_ensure_key k kvs : wf (JMap kvs) = true -> wf (JMap (ensure_key k kvs)) = true.
+Proof. intros W. unfold ensure_key. destruct (lookup k kvs); auto. apply wf_set_key; auto. Qed.
+
+Lemma wf_body obj p : wf obj = true -> prepare_for_api obj = Done p -> wf (body p) = true.
+Proof.
+  intros W P. destruct (v_prepare_done _ _ P) as [top [md [an [Es [Lm [La [Eb _]]]]]]].
+  apply wf_strip in W. rewrite Es in W. rewrite Eb.
+  pose proof (wf_ensure_key "metadata" _ W) as W1.
+  pose proof (wf_lookup _ _ _ W1 Lm) as Wm.
+  pose proof (wf_ensure_key "annotations" _ Wm) as Wm1.
+  pose proof (wf_lookup _ _ _ Wm1 La) as Wa.
+  apply wf_set_key; auto. apply wf_set_key; auto. apply wf_set_key; auto.
+Qed.
+
+Definition t_ann : json :=
+  JMap [("metadata"%string, JMap [("annotations"%string, JMap [(last_applied_key, annotation_placeholder)])])].
+
+Lemma wf_nodup kvs : wf (JMap kvs) = true -> nodup_str (map fst kvs) = true.
+Proof. intros W. apply wf_map_inv in W. tauto. Qed.
+
+Lemma supn_t_ann_body obj p : wf obj = true -> prepare_for_api obj = Done p -> supn t_ann (body p).
+Proof.
+  intros W P. pose proof (wf_body _ _ W P) as Wb.
+  destruct (v_prepare_done _ _ P) as [top [md [an [Es [Lm [La [Eb _]]]]]]].
+  rewrite Eb in *.
+  pose proof (wf_lookup _ _ _ Wb (v_lookup_set_key_eq _ _ _)) as Wm.
+  pose proof (wf_lookup _ _ _ Wm (v_lookup_set_key_eq _ _ _)) as Wa.
+  unfold t_ann. constructor; [apply wf_nodup; auto|].
+  intros k tv [E|[]] _. inversion E. subst. eexists. split; [apply v_lookup_set_key_eq|].
+  constructor; [apply wf_nodup; auto|].
+  intros k tv [E'|[]] _. inversion E'. subst. eexists. split; [apply v_lookup_set_key_eq|].
+  constructor; [apply wf_nodup; auto|].
+  intros k tv [E''|[]] _. inversion E''. subst. eexists. split; [apply v_lookup_set_key_eq|].
+  constructor. reflexivity.
+Qed.
+
+Lemma sup_map_lookup tk x k tv :
+  sup (JMap tk) x -> In (k, tv) tk -> plain_key k = true ->
+  exists xk xv, x = JMap xk /\ lookup k xk = Some xv /\ sup tv xv.
+Proof.
+  intros S I P. inversion S as [? C| |? xk Sm]; subst; [discriminate C|].
+  destruct (Sm k tv I P) as [xv [L Sx]]. eauto.
+Qed.
+
+Lemma lookup_truthy {A} k (kvs : list (string * A)) v : lookup k kvs = Some v -> kvs <> [].
+Proof. destruct kvs; [discriminate|discriminate]. Qed.
+
+(* the annotation of the patched object reads back the recorded document *)
+Lemma annotation_after_patch obj p l :
+  wf obj = true -> prepare_for_api obj = Done p ->
+  extract_last_applied_r (merge_patch l (body p)) (Some (recorded p)) = Done (Some (recorded p)).
+Proof.
+  intros W P.
+  assert (S : sup t_ann (merge_patch l (body p))).
+  { apply supn_merge_patch; [reflexivity | eapply supn_t_ann_body; eauto]. }
+  destruct (v_prepare_done _ _ P) as [top [_ [_ [_ [_ [_ [_ Er]]]]]]].
+  unfold t_ann in S.
+  destruct (sup_map_lookup _ _ _ _ S (or_introl eq_refl) eq_refl) as [x [xm [Ex [Lm Sm]]]].
+  destruct (sup_map_lookup _ _ _ _ Sm (or_introl eq_refl) eq_refl) as [m [xa [Em [La Sa]]]].
+  destruct (sup_map_lookup _ _ _ _ Sa (or_introl eq_refl) eq_refl) as [a [xl [Ea [Ll Sl]]]].
+  apply sup_scalar_inv in Sl; [|reflexivity]. subst.
+  rewrite Ex. unfold extract_last_applied_r.
+  destruct x as [|x0 xr]; [discriminate Lm|]. cbn [py_truthy negb].
+  cbn [get_r bind]. rewrite Lm.
+  destruct m as [|m0 mr]; [discriminate La|]. cbn [py_truthy negb get_r bind]. rewrite La.
+  destruct a as [|a0 ar]; [discriminate Ll|]. cbn [py_truthy negb get_r bind]. rewrite Ll.
+  cbn. rewrite Er. reflexivity.
+Qed.
+
+(* ---- owner references after the patch ---- *)
+
+Lemma merge_lookup2 l btop k1 m2 k2 v2 :
+  wf (JMap btop) = true -> lookup k1 btop = Some (JMap m2) -> lookup k2 m2 = Some v2 ->
+  v2 <> JNull -> (forall kvs, v2 <> JMap kvs) ->
+  exists x xm, merge_patch l (JMap btop) = JMap x /\ lookup k1 x = Some (JMap xm) /\ lookup k2 xm = Some v2.
+Proof.
+  intros W L1 L2 N NM. rewrite merge_patch_map_eq.
+  eexists. eexists. split; [reflexivity|].
+  rewrite (mp_go_in k1 (JMap m2)) by (auto using wf_nodup; discriminate).
+  rewrite merge_patch_map_eq. split; [reflexivity|].
+  pose proof (wf_lookup _ _ _ W L1) as Wm.
+  rewrite (mp_go_in k2 v2) by (auto using wf_nodup).
+  rewrite merge_patch_nonmap_eq by auto. reflexivity.
+Qed.
+
+Lemma merge_lookup2_keep ltop btop k1 lmd m2 k2 :
+  wf (JMap btop) = true -> lookup k1 ltop = Some (JMap lmd) -> lookup k1 btop = Some (JMap m2) ->
+  ~ In k2 (map fst m2) ->
+  exists x xm, merge_patch (JMap ltop) (JMap btop) = JMap x /\ lookup k1 x = Some (JMap xm) /\
+               lookup k2 xm = lookup k2 lmd.
+Proof.
+  intros W L1 L2 N. rewrite merge_patch_map_eq.
+  eexists. eexists. split; [reflexivity|].
+  rewrite (mp_go_in k1 (JMap m2)) by (auto using wf_nodup; discriminate).
+  rewrite L1, merge_patch_map_eq. split; [reflexivity|].
+  apply mp_go_notin. exact N.
+Qed.
+
+Lemma live_refs_eq top md :
+  lookup "metadata" top = Some (JMap md) ->
+  live_refs (JMap top) =
+    match lookup "ownerReferences" md with
+    | None => Some None
+    | Some refs => if negb (py_truthy refs) then Some None
+                   else match refs with JList l => Some (Some l) | _ => None end
+    end.
+Proof. intros L. unfold live_refs. rewrite L. reflexivity. Qed.
+
+(* all references are maps, the last one has the trigger's uid *)
+Lemma find_ref_r_last trig l okvs :
+  forallb (fun r => match r with JMap _ => true | _ => false end) l = true ->
+  uid_eq (lookup "uid" okvs) trig = true ->
+  find_ref_r trig (l ++ [JMap okvs]) = Done true.
+Proof.
+  intros F U. induction l as [|r rs IH]; cbn.
+  - rewrite U. reflexivity.
+  - cbn in F. apply Bool.andb_true_iff in F. destruct F as [Fr Fs].
+    destruct r; try discriminate Fr. destruct (uid_eq (lookup "uid" kvs) trig); auto.
+Qed.
+
+Lemma find_ref_r_all_maps trig l b :
+  find_ref_r trig l = Done b -> b = false ->
+  forallb (fun r => match r with JMap _ => true | _ => false end) l = true.
+Proof.
+  intros H E. subst b. induction l as [|r rs IH]; auto.
+  cbn in H. destruct r; try discriminate H.
+  destruct (uid_eq (lookup "uid" kvs) trig); [discriminate H|]. cbn. auto.
+Qed.
+
+Lemma strip_is_map_list l :
+  forallb (fun r => match r with JMap _ => true | _ => false end) l = true ->
+  forallb (fun r => match r with JMap _ => true | _ => false end) (map strip l) = true.
+Proof.
+  induction l as [|r rs IH]; cbn; auto. intros H. apply Bool.andb_true_iff in H. destruct H as [A B].
+  destruct r; try discriminate A. rewrite strip_map_eq. cbn. auto.
+Qed.
+
+Lemma strip_is_map v md : strip v = JMap md -> exists mdt, v = JMap mdt /\ md = strip_kvs mdt.
+Proof.
+  destruct v; try (cbn; discriminate).
+  rewrite strip_map_eq. intros H. inversion H. eauto.
+Qed.
+
+Lemma lookup_ensure_key_neq k k' kvs :
+  String.eqb k' k = false -> lookup k' (ensure_key k kvs) = lookup k' kvs.
+Proof. intros N. unfold ensure_key. destruct (lookup k kvs); auto. apply v_lookup_set_key_neq; auto. Qed.
+
+Lemma strip_kvs_lookup_none k kvs : lookup k kvs = None -> lookup k (strip_kvs kvs) = None.
+Proof.
+  intros H. apply lookup_notin_keys. intros I. apply strip_kvs_keys in I.
+  apply v_lookup_None_notin in H. contradiction.
+Qed.
+
+(* the metadata map of the stripped object *)
+Lemma strip_meta ttop md :
+  nodup_str (map fst ttop) = true ->
+  lookup "metadata" (ensure_key "metadata" (strip_kvs ttop)) = Some (JMap md) ->
+  (lookup "metadata" ttop = None /\ md = []) \/
+  (exists mdt, lookup "metadata" ttop = Some (JMap mdt) /\ md = strip_kvs mdt).
+Proof.
+  intros ND L. rewrite lookup_ensure_key in L.
+  destruct (lookup "metadata" ttop) as [v|] eqn:Lt.
+  - rewrite (strip_kvs_lookup _ _ _ ND (v_lookup_In _ _ _ Lt) eq_refl) in L. inversion L as [E].
+    destruct (strip_is_map _ _ E) as [mdt [Ev Em]]. subst. right. eauto.
+  - rewrite (strip_kvs_lookup_none _ _ Lt) in L. inversion L. auto.
+Qed.
+
+(* the body's metadata map agrees with the stripped object's on every key but "annotations" *)
+Lemma body_meta obj p :
+  prepare_for_api obj = Done p ->
+  exists top md btop md2,
+    strip obj = JMap top /\ lookup "metadata" (ensure_key "metadata" top) = Some (JMap md) /\
+    body p = JMap btop /\ lookup "metadata" btop = Some (JMap md2) /\
+    (forall k, String.eqb k "annotations" = false -> lookup k md2 = lookup k md).
+Proof.
+  intros P. destruct (v_prepare_done _ _ P) as [top [md [an [Es [Lm [La [Eb _]]]]]]].
+  exists top, md,
+    (set_key "metadata"
+       (JMap (set_key "annotations" (JMap (set_key last_applied_key annotation_placeholder an))
+                (ensure_key "annotations" md))) (ensure_key "metadata" top)),
+    (set_key "annotations" (JMap (set_key last_applied_key annotation_placeholder an))
+       (ensure_key "annotations" md)).
+  split; [exact Es|]. split; [exact Lm|]. split; [exact Eb|]. split; [apply v_lookup_set_key_eq|].
+  intros k N. rewrite v_lookup_set_key_neq by auto. apply lookup_ensure_key_neq. auto.
+Qed.
+
+Lemma wf_updated_refs live o refs :
+  updated_owner_refs_r live o = Done (OwnerRefs refs) -> wf live = true -> wf o = true ->
+  wf (JList refs) = true.
+Proof.
+  unfold updated_owner_refs_r, live_refs. intros H Wl Wo.
+  destruct live as [| | | | | |top]; try discriminate H.
+  destruct (lookup "metadata" top) as [[| | | | | |md]|] eqn:Lm; try discriminate H.
+  pose proof (wf_lookup _ _ _ Wl Lm) as Wm.
+  destruct (lookup "ownerReferences" md) as [refs0|] eqn:Lr.
+  - pose proof (wf_lookup _ _ _ Wm Lr) as Wr.
+    destruct (negb (py_truthy refs0)).
+    + inversion H. subst. cbn. rewrite Wo. reflexivity.
+    + destruct refs0 as [| | | | |l|]; try discriminate H.
+      cbn [bind] in H. destruct (has_owner_r o l) as [found|e]; [|discriminate H].
+      inversion H. destruct found; subst; auto.
+      cbn in Wr |- *. rewrite forallb_app, Wr. cbn. rewrite Wo. reflexivity.
+  - inversion H. subst. cbn. rewrite Wo. reflexivity.
+Qed.
+
+Lemma wf_set_owner_refs t refs t' :
+  set_owner_refs t refs = Done t' -> wf t = true -> wf (JList refs) = true -> wf t' = true.
+Proof.
+  unfold set_owner_refs. destruct t as [| | | | | |top]; try discriminate.
+  destruct (lookup "metadata" top) as [[| | | | | |md]|] eqn:Lm; try discriminate.
+  intros H W Wr. inversion H. subst.
+  apply wf_set_key; auto. apply wf_set_key; auto. eapply wf_lookup; eauto.
+Qed.
+
+Lemma tail_patch_inv2 cfg t live ann r p :
+  tail cfg t live ann = Some (r, [CPatch p]) ->
+  exists rr, owner_check cfg live = Done rr /\
+    ((tc_should_own cfg && negb (reffed_truthy rr) = false /\ prepare_for_api t = Done p) \/
+     (tc_should_own cfg && negb (reffed_truthy rr) = true /\
+      exists refs t', updated_owner_refs_r live (tc_owner_ref cfg) = Done (OwnerRefs refs) /\
+                      set_owner_refs t refs = Done t' /\ prepare_for_api t' = Done p)).
+Proof.
+  rewrite tail_eq. destruct (owner_check cfg live) as [rr|e]; [|intros H; inversion H].
+  destruct (extract_last_applied_r live ann) as [la|e]; [|intros H; inversion H].
+  destruct (as_res (vmatch t live la false)) as [v|]; [|discriminate].
+  intros H. inversion H as [H']. clear H. exists rr. split; auto.
+  unfold dispatch in H'. destruct v as [m|e]; [|inversion H'].
+  destruct (m && reffed_truthy rr); [inversion H'|].
+  destruct (tc_update cfg) as [|d|d]; try (inversion H'; fail).
+  unfold patch_branch in H'.
+  destruct (tc_should_own cfg && negb (reffed_truthy rr)).
+  - right. split; auto.
+    destruct (updated_owner_refs_r live (tc_owner_ref cfg)) as [[refs|]|e]; cbn in H'; try (inversion H'; fail).
+    destruct (set_owner_refs t refs) as [t'|e] eqn:S; cbn in H'; try (inversion H'; fail).
+    destruct (prepare_for_api t') eqn:P; inversion H'. subst. eauto.
+  - left. split; auto. destruct (prepare_for_api t) eqn:P; inversion H'. subst. auto.
+Qed.
+
+Lemma validate_reffed_inv live o b :
+  validate_owner_reffed_r live o = Done (Reffed b) ->
+  (b = false /\ live_refs live = Some None) \/
+  (exists l, live_refs live = Some (Some l) /\ has_owner_r o l = Done b).
+Proof.
+  unfold validate_owner_reffed_r. destruct (live_refs live) as [[l|]|]; try discriminate.
+  - cbn [bind]. destruct (has_owner_r o l) as [f|e] eqn:Hh; [|discriminate]. intros H. inversion H. subst. eauto.
+  - intros H. inversion H. auto.
+Qed.
+
+Lemma live_refs_meta live x : live_refs live = Some x -> exists top md, live = JMap top /\ lookup "metadata" top = Some (JMap md).
+Proof.
+  unfold live_refs. destruct live as [| | | | | |top]; try discriminate.
+  destruct (lookup "metadata" top) as [[| | | | | |md]|] eqn:L; try discriminate. intros _. eauto.
+Qed.
+
+(* C04 no_update_loop, fully composed over the tail model: pass 1 patched; the
+   server applied the patch; pass 2 is quiet and returns the object *)
+Theorem no_update_loop_full cfg t live ann r p okvs u :
+  good t = true -> no_nulls t = true -> ann_free t = true -> owners_free t = true ->
+  wf t = true -> wf live = true ->
+  tc_owner_ref cfg = JMap okvs -> wf (JMap okvs) = true -> lookup "uid" okvs = Some (JStr u) ->
+  (forall rr, owner_check cfg live = Done rr -> rr <> ReffedPermFail) ->
+  tail cfg t live ann = Some (r, [CPatch p]) ->
+  let live2 := merge_patch live (body p) in
+  tail cfg t live2 (Some (recorded p)) = Some (TLive live2, []).
+Proof.
+  intros G N AF OF W Wl Eo Wo Lu NPF T live2.
+  destruct (tail_patch_inv2 _ _ _ _ _ _ T) as [rr [Oc Cases]].
+  assert (Wt' : exists t', wf t' = true /\ prepare_for_api t' = Done p).
+  { destruct Cases as [[_ P]|[_ [refs [t' [U [S P]]]]]]; [eauto|].
+    exists t'. split; auto. eapply wf_set_owner_refs; eauto.
+    eapply wf_updated_refs; eauto. rewrite Eo. exact Wo. }
+  destruct Wt' as [t0 [Wt0 Pt0]].
+  assert (Own : exists rr2, owner_check cfg live2 = Done rr2 /\ reffed_truthy rr2 = true).
+  { unfold owner_check in *. destruct (tc_should_own cfg) eqn:So; [|eexists; split; reflexivity].
+    pose proof (NPF rr Oc) as Npf.
+    destruct Cases as [[Cnd P]|[Cnd [refs [t' [U [S P]]]]]].
+    - (* already reffed: the patch leaves ownerReferences alone *)
+      cbn in Cnd. apply Bool.negb_false_iff in Cnd.
+      destruct rr as [b|]; [|congruence]. cbn in Cnd. subst b.
+      destruct (validate_reffed_inv _ _ _ Oc) as [[C _]|[l [Lr Ho]]]; [discriminate C|].
+      destruct (live_refs_meta _ _ Lr) as [ltop [lmd [El Lm]]].
+      destruct (body_meta _ _ P) as [top [md [btop [md2 [Es [Lmd [Eb [Lb Agree]]]]]]]].
+      destruct t as [| | | | | |ttop]; try (rewrite strip_map_eq in Es; discriminate Es);
+        try (cbn in Es; discriminate Es).
+      rewrite strip_map_eq in Es. inversion Es. subst top.
+      assert (No : lookup K_OWNERS md2 = None).
+      { rewrite Agree by reflexivity.
+        destruct (strip_meta _ _ (wf_nodup _ W) Lmd) as [[_ E]|[mdt [Lt E]]]; subst md; [reflexivity|].
+        apply strip_kvs_lookup_none. unfold owners_free in OF. rewrite Lt in OF.
+        destruct (lookup K_OWNERS mdt); [discriminate OF | reflexivity]. }
+      pose proof (wf_body _ _ W P) as Wb. rewrite Eb in Wb.
+      destruct (merge_lookup2_keep ltop btop "metadata" lmd md2 K_OWNERS Wb Lm Lb
+                  (v_lookup_None_notin _ _ No)) as [x [xm [Ex [Lx Lo]]]].
+      exists (Reffed true). split; [|reflexivity].
+      unfold live2. rewrite El, Eb, Ex. unfold validate_owner_reffed_r.
+      rewrite (live_refs_eq _ _ Lx). unfold K_OWNERS in Lo. rewrite Lo.
+      rewrite El, (live_refs_eq _ _ Lm) in Lr. rewrite Lr. cbn [bind]. rewrite Ho. reflexivity.
+    - (* the owner reference was added by the patch *)
+      cbn in Cnd. apply Bool.negb_true_iff in Cnd.
+      destruct rr as [b|]; [|congruence]. cbn in Cnd. subst b.
+      destruct (body_meta _ _ P) as [top [md [btop [md2 [Es [Lmd [Eb [Lb Agree]]]]]]]].
+      (* shape of t' *)
+      unfold set_owner_refs in S. destruct t as [| | | | | |ttop]; try discriminate S.
+      destruct (lookup "metadata" ttop) as [[| | | | | |md0]|] eqn:Lt; try discriminate S.
+      inversion S. subst t'. clear S.
+      rewrite strip_map_eq, strip_kvs_set_key in Es by reflexivity. injection Es as Et. subst top.
+      rewrite lookup_ensure_key, v_lookup_set_key_eq in Lmd.
+      change (Some (JMap (strip_kvs (set_key K_OWNERS (JList refs) md0))) = Some (JMap md)) in Lmd.
+      rewrite strip_kvs_set_key in Lmd by reflexivity. injection Lmd as Emd. subst md.
+      assert (Lo : lookup K_OWNERS md2 = Some (JList (map strip refs))).
+      { rewrite Agree by reflexivity. rewrite v_lookup_set_key_eq. reflexivity. }
+      (* refs is non-empty and ends with the owner *)
+      assert (Hr : has_owner_r (JMap okvs) (map strip refs) = Done true /\ refs <> []).
+      { rewrite Eo in U, Oc. unfold updated_owner_refs_r in U.
+        assert (Last : forall l0, forallb (fun r => match r with JMap _ => true | _ => false end) l0 = true ->
+                  has_owner_r (JMap okvs) (map strip (l0 ++ [JMap okvs])) = Done true).
+        { intros l0 F. rewrite map_app. cbn [map]. rewrite strip_map_eq. cbn [has_owner_r].
+          apply find_ref_r_last; [apply strip_is_map_list; auto|].
+          rewrite (strip_kvs_lookup _ _ _ (wf_nodup _ Wo) (v_lookup_In _ _ _ Lu) eq_refl), Lu.
+          cbn. apply String.eqb_refl. }
+        destruct (validate_reffed_inv _ _ _ Oc) as [[_ Lr]|[l [Lr Ho]]]; rewrite Lr in U.
+        - inversion U. subst. split; [apply (Last []); reflexivity | discriminate].
+        - cbn [bind] in U. rewrite Ho in U. inversion U. subst. split.
+          + apply Last. cbn in Ho. eapply find_ref_r_all_maps; eauto.
+          + destruct l; discriminate. }
+      destruct Hr as [Ho Ne].
+      assert (Wt' : wf (JMap (set_key "metadata" (JMap (set_key K_OWNERS (JList refs) md0)) ttop)) = true).
+      { eapply (wf_set_owner_refs (JMap ttop)); [unfold set_owner_refs; rewrite Lt; reflexivity | auto |].
+        eapply wf_updated_refs; eauto. rewrite Eo. exact Wo. }
+      pose proof (wf_body _ _ Wt' P) as Wb. rewrite Eb in Wb.
+      destruct (merge_lookup2 live btop "metadata" md2 K_OWNERS _ Wb Lb Lo) as [x [xm [Ex [Lx Lxo]]]];
+        [discriminate | discriminate |].
+      exists (Reffed true). split; [|reflexivity].
+      unfold live2. rewrite Eb, Ex. unfold validate_owner_reffed_r.
+      rewrite (live_refs_eq _ _ Lx). unfold K_OWNERS in Lxo. rewrite Lxo.
+      destruct (map strip refs) as [|r0 rs] eqn:Em; [destruct refs; [congruence | discriminate Em]|].
+      cbn [py_truthy negb bind]. rewrite Eo, Ho. reflexivity. }
+  destruct Own as [rr2 [Oc2 Tr2]].
+  eapply no_update_loop_thm; eauto.
+  eapply annotation_after_patch; eauto.
+Qed.
